@@ -7,3 +7,7 @@ open Verif.Props.C09
 #print axioms json_second_pass_fixed
 #print axioms json_numfix_keep
 #print axioms json_numfix_precision_counterexample
+#print axioms number_output_reaccepted
+#print axioms decimal_output_reaccepted
+#print axioms datauri_output_parses_partial
+#print axioms mediatype_output_spec
